@@ -45,6 +45,8 @@ pub struct GenOpts {
     pub nonfused_pct: u64,
     /// chance (percent) that the exact size hint of a wrapped iterator under-reports
     pub short_hint_pct: u64,
+    /// chance (percent) that the caller panics while it holds a partly consumed chunk
+    pub consumer_panic_pct: u64,
 }
 
 impl GenOpts {
@@ -80,6 +82,7 @@ impl GenOpts {
             huge_pct: 0,
             nonfused_pct: 0,
             short_hint_pct: 0,
+            consumer_panic_pct: 0,
         }
     }
 }
@@ -177,6 +180,7 @@ pub fn opts_for(prop: &str) -> GenOpts {
             o.pre_pct = 25;
             o.into_seq_pct = 50;
             o.drain = false;
+            o.consumer_panic_pct = 12;
         }
         "C09" => {
             o.w_skip = 6;
@@ -549,6 +553,7 @@ pub fn generate_with(prop: &str, o: &GenOpts, base_seed: u64, index: u64) -> Run
             }
             PanicSite::Clone => o.kinds = vec![Kind::ClonedSlice, Kind::ClonedIter],
             PanicSite::Closure => o.w_composite = 60,
+            PanicSite::Consumer => {}
         }
     }
     let o = &o;
@@ -641,7 +646,11 @@ pub fn generate_with(prop: &str, o: &GenOpts, base_seed: u64, index: u64) -> Run
         sim.stale_permille = *rng.pick(&[50u32, 150, 400]);
         sim.stale_seed = mix(&[run_seed, 0x57a1e]);
     }
-    let panic = crash_point.map(|(site, _, k)| (site, k));
+    let mut panic = crash_point.map(|(site, _, k)| (site, k));
+    if panic.is_none() && o.consumer_panic_pct > 0 && rng.chance(o.consumer_panic_pct, 100) {
+        // the caller panics after its k-th chunk element (seeded change C08-r5)
+        panic = Some((PanicSite::Consumer, rng.range(0, (len.max(1) - 1).min(3)) as u32));
+    }
     let heap_bytes = if rng.chance(o.heap_pct, 100) {
         *rng.pick(&[8usize, 24, 4096])
     } else {
